@@ -378,7 +378,10 @@ def check_property(pid, tier, seed):
         for f in sorted(os.listdir(corpus_dir)):
             if f.endswith(".trace"):
                 h = read_header(os.path.join(corpus_dir, f))
-                jobs.append((h.get("binary", "kdrive"), h.get("stream", P["streams"][0]["name"]), 0, 0, os.path.join(corpus_dir, f)))
+                if h.get("regen") == "1":   # application-layer histories are regenerated from (stream, seed, n)
+                    jobs.append((h.get("binary", "kdrive"), h["stream"], int(h.get("seed", "1")), int(h.get("n", "2000")), None))
+                else:
+                    jobs.append((h.get("binary", "kdrive"), h.get("stream", P["streams"][0]["name"]), 0, 0, os.path.join(corpus_dir, f)))
     for st in P["streams"]:
         n = st["quick"] if tier == "quick" else st["thorough"]
         nseeds = 1 if tier == "quick" else st.get("seeds", 8)
@@ -435,6 +438,25 @@ def check_property(pid, tier, seed):
             witness = {"kind": kind, "stream": stream, "op": r.ops[idx], "impl": r.impl[idx], "model": r.model[idx], "detail": detail}
         # shrink: stateless streams -> the single op; stateful -> ddmin on the prefix
         stateless = props.STREAM_STATELESS.get(stream, False)
+        regen = stream.startswith("app")
+        if regen:
+            # application-layer traces are not re-executable op by op: the replay is the generated trace
+            # itself (cut after the failing block) plus the recipe to regenerate it
+            end = idx
+            while end + 1 < len(r.ops) and not r.ops[end].startswith("op a.end"):
+                end += 1
+            hdr = {"property": pid, "stream": stream, "binary": binary, "seed": r.seed, "n": r.n, "regen": "1", "kind": kind, "detail": detail,
+                   "theorem": ",".join(P["theorems"][:3]), "failing_op_index": idx,
+                   "how": "./check %s --replay <this file>  (re-runs stream %s with seed %d, n %d against the current tree)" % (pid, stream, r.seed, r.n)}
+            is_violation_witness = kind == "monitor" or monitors.divergence_is_violation(pid, witness)
+            suffix = ""
+            if not is_violation_witness:
+                hdr["broken"] = "correspondence model<->implementation on stream %s (first diverging op index %d); no input found on which the property itself fails" % (stream, idx)
+                suffix = " no-failing-input-found"
+            lo = max(0, idx - 60)
+            path = write_replay(pid, kind, hdr, r.ops[lo:end + 1], r.impl[lo:end + 1], r.model[lo:end + 1])
+            violations.append((path, suffix))
+            continue
         prefix = [r.ops[idx]] if stateless else r.ops[:idx + 1]
         if not stateless:
             # a `reset` starts a fresh world: nothing before it matters
@@ -525,11 +547,15 @@ def do_replay(pid, path):
     if not stream:
         print("replay file names a broken obligation/correspondence, no executable trace: " + h.get("broken", ""))
         return 1
-    r = run_stream(binary, stream, 0, 0, replay=path)
+    if h.get("regen") == "1":
+        r = run_stream(binary, stream, int(h.get("seed", "1")), int(h.get("n", "2000")))
+    else:
+        r = run_stream(binary, stream, 0, 0, replay=path)
     mon = monitors.MONITORS.get(pid, monitors.default_monitor)
     hits = mon(pid, r)
     hard = r.hard_divs()
-    for i in range(len(r.ops)):
+    show = range(len(r.ops)) if len(r.ops) <= 400 else sorted(set(hard[:20]) | {i for i, _ in hits[:20]})
+    for i in show:
         flag = " <== DIFFERS" if i in hard else ""
         print(r.ops[i][:300]); print("   impl ", r.impl[i][:300]); print("   model", r.model[i][:300] + flag)
     for i, d in hits:
